@@ -25,6 +25,9 @@ def present_term(v):
     return z3.simplify(z3.Or(*gs)) if gs else z3.BoolVal(False)
 
 
+_OTHERS = [0]
+
+
 class SymMap:
     """dict with an explicit list of entries [key, value]; value may be ABSENT or a guarded union containing
     ABSENT.  Keys of different entries are assumed pairwise distinct (the harness builds them so).  An access
@@ -145,7 +148,22 @@ class SymMap:
         tot = 0
         for _, v in self.entries:
             tot = tot + ite(mk_bool(present_term(v)), 1, 0)
+        if self.open_world:
+            # the map also holds entries the harness does not name (other streams, other sources): any number of them
+            if not hasattr(self, '_others'):
+                _OTHERS[0] += 1
+                self._others = z3.Int(f'{self.name}.other_entries!{_OTHERS[0]}')
+                ex.assume(self._others >= 0)
+            tot = tot + mk_int(self._others)
         return tot
+
+    def sym_iter(self, ex):
+        if self.open_world:
+            # iterating reaches entries that are not this call's business: a foreign access (frame violation), keys unknown
+            from .symex import Opaque
+            self.foreign.append(('iterate', None))
+            return [Opaque(f'some-key-of-{self.name}')]
+        return [k for k, v in self.entries if v is not ABSENT]
 
     def snapshot(self):
         return [(k, v) for k, v in self.entries]
